@@ -210,7 +210,7 @@ func (Elements).Sort
 ghost accKey fmap[int]string
 pred WfAcc(acc Accumulator) :=
      acc != nil
-  && (forall k string :: {acc[k]} k in acc ==> len(mapget(acc, k)) == 2 && arr(mapget(acc, k)) != 0 && arr(mapget(acc, k)) < alloc() && accKey[arr(mapget(acc, k))] == k)
+  && (forall k string :: {acc[k]} {k in acc} k in acc ==> len(mapget(acc, k)) == 2 && arr(mapget(acc, k)) != 0 && arr(mapget(acc, k)) < alloc() && accKey[arr(mapget(acc, k))] == k)
 macro AccPos(acc Accumulator, x string) float64 := if x in acc then mapget(acc, x)[1] else 0.0
 macro AccNeg(acc Accumulator, x string) float64 := if x in acc then mapget(acc, x)[0] else 0.0
 
@@ -222,7 +222,7 @@ ghost accP fmap[int]fmap[string]float64
 ghost accN fmap[int]fmap[string]float64
 ghost accH fmap[int]set[string]
 pred AccView(acc Accumulator) :=
-  forall x string :: {acc[x]} (x in acc) == (x in accH[acc]) && AccPos(acc, x) == accP[acc][x] && AccNeg(acc, x) == accN[acc][x]
+  forall x string :: {acc[x]} {x in acc} (x in acc) == (x in accH[acc]) && AccPos(acc, x) == accP[acc][x] && AccNeg(acc, x) == accN[acc][x]
 
 func NewAccumulator returns (acc)
   props C02 C07 C12
@@ -308,4 +308,71 @@ func NewLogNodeFromElements returns (ln, err)
     unfold Distinct(elems(elList), len(elList))
     assert @appended-distinct Distinct(elems(elList), len(elList))
   }
+
+// ---------------------------------------------------------------------------------------------
+// Balance tree (C03, C08). Ghost state: tnodes = the nodes of all balance trees, tdepth = a node's distance from
+// its root, tmax = a bound on all depths (it exists because the trees are finite; it is the termination measure of
+// the recursive printers). TreeInv: every node has a (non-nil) child map; every child is a node, is stored under
+// its own name and lies one level deeper - so the structure below any node is finite and acyclic.
+// ---------------------------------------------------------------------------------------------
+ghost tnodes set[int]
+ghost tdepth fmap[int]int
+ghost tmax   int
+ghost tmapOf fmap[int]int   // child map -> its node (two nodes never share a child map)
+pred TreeInv() :=
+     (forall n *TreeNode :: {n in tnodes} n in tnodes ==> n != nil && allocated(n) && n.Children != nil && allocated(n.Children) && tmapOf[n.Children] == n && 0 <= tdepth[n] && tdepth[n] <= tmax)
+  && (forall n *TreeNode, k string :: {mapget(n.Children, k)} n in tnodes && k in n.Children ==> mapget(n.Children, k) != nil && mapget(n.Children, k) in tnodes && mapget(n.Children, k).Name == k && tdepth[mapget(n.Children, k)] == tdepth[n] + 1)
+
+func NewTreeNode returns (tn)
+  props C03 C08
+  ensures @fresh tn != nil && fresh(tn) && tn.Name == name && tn.Total == sum && tn.Children != nil && fresh(tn.Children) && len(tn.Children) == 0
+
+// Add: the child is stored under its own name, or its total is added to the node already stored there
+func (*TreeNode).Add returns (res)
+  props C03 C08
+  requires @tree TreeInv() && tn in tnodes
+  requires @child child != nil && !(child in tnodes) && child.Children != nil && len(child.Children) == 0 && child != tn
+  requires @own-map forall n *TreeNode :: {n in tnodes} n in tnodes ==> n.Children != child.Children
+  modifies mapof(tn.Children), heap(TreeNode)
+  modifies ghost(tnodes, tdepth, tmax, tmapOf)
+  ensures @tree TreeInv() && res != nil && res in tnodes && tdepth[res] == tdepth[tn] + 1 && res == mapget(tn.Children, child.Name) && child.Name in tn.Children
+  ensures @new-or-merged [C03] (old(child.Name in tn.Children) ==> res == old(mapget(tn.Children, child.Name)) && res.Total == old(mapget(tn.Children, child.Name).Total) + child.Total) && (!old(child.Name in tn.Children) ==> res == child && res.Total == old(child.Total))
+  ensures @nodes-kept forall n *TreeNode :: {n in tnodes} old(n in tnodes) ==> n in tnodes
+  ghost after mapupdate 1 { set tnodes := store(tnodes, child, true); set tmapOf := store(tmapOf, child.Children, child); set tdepth := store(tdepth, child, tdepth[tn] + 1); set tmax := if tdepth[tn] + 1 > tmax then tdepth[tn] + 1 else tmax }
+
+// AddDeep: one node per path segment, each under the previous one
+func (*TreeNode).AddDeep
+  props C03 C08
+  requires @tree TreeInv() && tn in tnodes
+  modifies heap(TreeNode), maps(string, *TreeNode)
+  modifies ghost(tnodes, tdepth, tmax, tmapOf)
+  ensures @tree TreeInv() && tn in tnodes
+  ensures @nodes-kept forall n *TreeNode :: {n in tnodes} old(n in tnodes) ==> n in tnodes
+  loop 1 {
+    invariant @tree TreeInv() && parent in tnodes && tn == old(tn) && tn in tnodes
+    invariant @nodes-kept forall n *TreeNode :: {n in tnodes} old(n in tnodes) ==> n in tnodes
+  }
+
+// Keys: the children's names, strictly sorted (so siblings are shown in a fixed order, C03 / C05)
+func (*TreeNode).Keys returns (keys)
+  props C03 C05 C08
+  requires @node tn != nil && tn.Children != nil
+  ensures @keys [C03 C05] len(keys) == len(tn.Children) && fresh(arr(keys)) && StrictStr(elems(keys), len(keys)) && (forall p int :: {keys[p]} 0 <= p && p < len(keys) ==> keys[p] in tn.Children)
+  loop 1 {
+    invariant @count i == #it && len(keys) == #n && tn == old(tn) && fresh(arr(keys))
+    invariant @copied forall j int :: {keys[j]} 0 <= j && j < #it ==> keys[j] == #ord[j]
+  }
+  ghost after call 1 Sort {
+    unfold SortedStr(elems(keys), len(keys))
+    lassert @keys-perm forall p int :: {keys[p]} 0 <= p && p < len(keys) ==> keys[p] in tn.Children && keys[p] == at(call, elems(keys))[PermBack(at(call, elems(keys)), elems(keys), p)]
+    assert @keys forall p int :: {keys[p]} 0 <= p && p < len(keys) ==> keys[p] in tn.Children
+    unfold StrictStr(elems(keys), len(keys))
+    assert @strict StrictStr(elems(keys), len(keys))
+    forget call
+  }
+
+func (*TreeNode).FirstChild returns (c)
+  props C03 C08
+  requires @node tn != nil && tn.Children != nil
+  ensures @first (len(tn.Children) == 0 ==> c == nil) && (len(tn.Children) > 0 ==> (exists k string :: k in tn.Children && c == mapget(tn.Children, k)))
 @*/
